@@ -144,6 +144,24 @@ def _facet_int(cell, deg=1, fam="DP"):
     return b
 
 
+def _int_facet_two_rules(order):
+    def b():
+        m, V = space("triangle", "P", 1)
+        u, v = TrialFunction(V), TestFunction(V)
+        two = u("+") * v("-") * dS(degree=2)
+        one = inner(grad(u)("+"), grad(v)("+")) * dS(degree=4)
+        dg0 = inner(grad(u)("-"), grad(v)("-")) * dS(degree=0)
+        if order == 0:
+            return [two + one + dg0]
+        if order == 1:
+            return [dg0 + one + two]
+        if order == 2:
+            return [two + one]
+        f = Coefficient(V)
+        return [f("+") * u("+") * v("-") * dS(degree=3) + f("-") * u("-") * v("-") * dS(degree=1)]
+    return b
+
+
 def _one_sided_dS():
     def b():
         m, V = space("triangle", "P", 1)
@@ -252,6 +270,41 @@ def _tensor_constant():
     return b
 
 
+def _tensor_constant_nonsquare():
+    def b():
+        m, V = space("triangle", "P", 1)
+        u, v = TrialFunction(V), TestFunction(V)
+        K = Constant(m, shape=(2, 3))
+        T = Constant(m, shape=(2, 2, 3))
+        s = Constant(m)
+        f = Coefficient(V)
+        return [(K[1, 0] + 2 * K[0, 2] + T[1, 0, 2] + 3 * T[0, 1, 1] + s) * inner(grad(u), grad(v)) * dx
+                + K[1, 2] * T[1, 1, 0] * f * u * v * ds]
+    return b
+
+
+def _piola_nonaffine(kind):
+    def b():
+        if kind == "rt_p2geom":
+            m, V = space("triangle", "RT", 1, gdeg=2)
+            Q = FunctionSpace(m, basix.ufl.element("DP", "triangle", 0))
+            u, q = TrialFunction(V), TestFunction(Q)
+            v = TestFunction(V)
+            return [div(u) * q * dx, inner(u, v) * dx + div(u) * div(v) * dx]
+        if kind == "rtcf_quad":
+            m, V = space("quadrilateral", "RTCF", 1)
+            u, v = TrialFunction(V), TestFunction(V)
+            return [div(u) * div(v) * dx + inner(u, v) * dx]
+        if kind == "hessian_quad":
+            m, V = space("quadrilateral", "Q", 2)
+            u, v = TrialFunction(V), TestFunction(V)
+            return [inner(grad(grad(u)), grad(grad(v))) * dx]
+        m, V = space("hexahedron", "NCE", 1)
+        u, v = TrialFunction(V), TestFunction(V)
+        return [inner(curl(u), curl(v)) * dx]
+    return b
+
+
 def _derivative_drop():
     def b():
         m, V = space("triangle", "P", 1)
@@ -356,6 +409,10 @@ def fixed():
         E("stokes_mixed", _mixed_stokes(), tags=("cell", "mixed")),
         E("rt_mass", _hdiv_mass("triangle", "RT", 1), tags=("cell", "piola")),
         E("n1curl_tet", _hcurl_curl(), tags=("cell", "piola")),
+        E("rt_div_p2geom", _piola_nonaffine("rt_p2geom"), tags=("cell", "piola", "nonaffine")),
+        E("rtcf_quad", _piola_nonaffine("rtcf_quad"), tags=("cell", "piola", "nonaffine")),
+        E("hessian_quad", _piola_nonaffine("hessian_quad"), tags=("cell", "nonaffine")),
+        E("nce_hex", _piola_nonaffine("nce_hex"), tags=("cell", "piola", "nonaffine")),
         E("ext_facet_tri", _facet_ext("triangle", 1), tags=("facet",)),
         E("ext_facet_tet", _facet_ext("tetrahedron", 1), tags=("facet",)),
         E("ext_facet_quad", _facet_ext("quadrilateral", 1), tags=("facet",)),
@@ -363,6 +420,10 @@ def fixed():
         E("int_facet_tet", _facet_int("tetrahedron", 1), tags=("interior",)),
         E("int_facet_interval", _facet_int("interval", 1), tags=("interior",)),
         E("one_sided_dS", _one_sided_dS(), tags=("interior",)),
+        E("int_facet_two_rules_a", _int_facet_two_rules(0), tags=("interior", "rules")),
+        E("int_facet_two_rules_b", _int_facet_two_rules(1), tags=("interior", "rules")),
+        E("int_facet_two_rules_c", _int_facet_two_rules(2), tags=("interior", "rules")),
+        E("int_facet_two_rules_d", _int_facet_two_rules(3), tags=("interior", "rules")),
         E("vertex_tri", _vertex(), tags=("vertex",)),
         E("math_tri", _math(), tags=("cell", "math")),
         E("conditional_tri", _conditional(), tags=("cell", "cond")),
@@ -374,6 +435,7 @@ def fixed():
         E("multi_rule", _multi_rule(), tags=("cell", "rules")),
         E("subdomains", _subdomains(), tags=("cell", "facet", "subdomains")),
         E("tensor_constant", _tensor_constant(), tags=("cell", "const")),
+        E("tensor_constant_nonsquare", _tensor_constant_nonsquare(), tags=("cell", "facet", "const")),
         E("derivative_drop", _derivative_drop(), tags=("cell", "coef")),
         E("symmetric_blocked", _blocked_symmetric(), tags=("cell", "blocked")),
         E("mini_enriched", _enriched_mini(), tags=("cell", "enriched")),
